@@ -26,10 +26,35 @@ Definition felt_div_ok (args : list Z) (got : outcome) : bool :=
   | _, _ => false
   end.
 
+(* u256_inv_mod(a, n): Some(x) with 0 < x < n and a*x = 1 (mod n) exactly when n > 1 and
+   gcd(a, n) = 1; u256_div_mod_n(a, b, n) = Some(a * b^-1 mod n) under the same condition on b.
+   Specified by the defining relation (the inverse is unique). *)
+Definition u256_of (lo hi : Z) : Z := lo + hi * 2 ^ 128.
+Definition inv_mod_ok (args : list Z) (got : outcome) : bool :=
+  match args, got with
+  | [a; n], Success [tag; lo; hi] =>
+      let x := u256_of lo hi in
+      if (1 <? n) && (Z.gcd a n =? 1)
+      then (tag =? 0) && (0 <? x) && (x <? n) && ((a * x) mod n =? 1) && (0 <=? lo) && (lo <? 2 ^ 128)
+      else (tag =? 1) && (lo =? 0) && (hi =? 0)
+  | _, _ => false
+  end.
+Definition div_mod_n_ok (args : list Z) (got : outcome) : bool :=
+  match args, got with
+  | [a; b; n], Success [tag; lo; hi] =>
+      let x := u256_of lo hi in
+      if (1 <? n) && (Z.gcd b n =? 1)
+      then (tag =? 0) && (0 <=? x) && (x <? n) && ((x * b) mod n =? a mod n) && (0 <=? lo) && (lo <? 2 ^ 128)
+      else (tag =? 1) && (lo =? 0) && (hi =? 0)
+  | _, _ => false
+  end.
+
 Definition check_case (c : case) : bool :=
   let '(o, t, args, got) := c in
   match o with
   | OFeltDiv => felt_div_ok args got
+  | OInvMod => inv_mod_ok args got
+  | ODivModN => div_mod_n_ok args got
   | _ =>
     match eval o t args with
     | Some want => outcome_eqb want got
